@@ -31,6 +31,14 @@ structure St where
   loopShown : List Nat := []
   ids : List String := []
   msgs : List (String × Int) := []
+  -- operator mode, specification side: the timer-set specification decides which timers may reach the handler
+  sspec : Spec := Spec.new []
+  squeue : List HEv := []                -- events the specification has produced and the handler has not been given yet
+  sckpt : Option (List (Bytes × Int)) := none
+  stale : Nat := 0                       -- events at the head of the operator's batch that were queued before the last (re)deployment
+  tainted : Bool := false                -- the current deployment's state descends from handling such events (finding D45)
+  ckptTainted : Bool := false            -- … and so does the last checkpoint
+  aligned : List Nat := []               -- runners whose barrier of the current checkpoint has arrived
 
 def intOr (s : String) : Int := s.toInt?.getD 0
 
@@ -44,6 +52,7 @@ def initSt (hdr : List String) : St :=
     -- `NewEventBatcher`: `MaxSize == 0` means 1
     let mb := if natOr maxBatch = 0 then 1 else natOr maxBatch
     { w := Wm.Watermarker.new (intOr lat), op := ⟨Registry.new store ids, [], mb⟩, lat := intOr lat, ids := ids,
+      sspec := Spec.new ids,
       loopN := natOr maxBatch, loopK := natOr runners, kgc := natOr kgc, cache := cache }
   | _ => {}
 
@@ -103,35 +112,75 @@ def parseRawK (k : Nat) (s : String) : Wm.REvK :=
 
 def opLine (st : St) (kf model spec : String) : String := if st.toldSpec then withSpecKf kf model spec else model
 
+/-- canonical order of fired timers in operator mode (one key group: the DB order is timestamp, then subject key) -/
+def firedLe (a b : Bytes × Int) : Bool := a.2 < b.2 || (a.2 == b.2 && Bytes.cmp a.1 b.1 != .gt)
+def insertFired (x : Bytes × Int) : List (Bytes × Int) → List (Bytes × Int)
+  | [] => [x]
+  | y :: ys => if firedLe x y then x :: y :: ys else y :: insertFired x ys
+
+/-- the specification's reading of the requests of one operation. The batch boundaries are mechanism and are taken from
+the model's requests; **which** events are handed over is the specification's: the next events of `squeue`, after
+dropping the events that were queued before the last (re)deployment (`stale`; the code hands them to the new
+deployment: finding D45). Returns the new state, the specification's requests and whether stale events were involved. -/
+def specReqs (st : St) (c : Int) : List Req → St × List Req × Bool
+  | [] => (st, [], false)
+  | r :: rs =>
+    let k := min st.stale r.events.length
+    let m := r.events.length - k
+    let evs := st.squeue.take m
+    let st1 := { st with stale := st.stale - k, squeue := st.squeue.drop m, sspec := specHandle st.sspec evs,
+                         tainted := st.tainted || decide (k > 0) }
+    let rest := specReqs st1 c rs
+    (rest.1, { events := evs, told := c } :: rest.2.1, decide (k > 0) || rest.2.2)
+
+/-- one operator-mode line: model requests against the specification's -/
+def opStep (st : St) (r : Op × List Req) (msgs : List (String × Int)) : St × String :=
+  let c := specComposite st.ids msgs
+  let sr := specReqs { st with op := r.1, msgs := msgs } c r.2
+  let kf := if sr.2.2 || sr.1.tainted then "D45" else toldKf msgs
+  (sr.1, opLine st kf s!"c={r.1.reg.wm} {showReqs r.2}" s!"c={c} {showReqs sr.2.1}")
+
+/-- the operator-mode operations (`Timers.Op`: keyed events, watermark messages, source completions, barriers, recovery,
+redeployments); also the operator mode of C10's driver section — it does not touch the watermarker definitions -/
 def stepOp (st : St) : List String → St × String
   | ["keyed", _, k, ts] =>
-    let r := st.op.keyed (hexOr k) (parseInts ts)
-    let c := specComposite st.ids st.msgs
-    ({ st with op := r.1 }, opLine st (toldKf st.msgs) s!"c={r.1.reg.wm} {showReqs r.2}" s!"c={c} {showReqs (retold c r.2)}")
+    let st := { st with squeue := st.squeue ++ [.keyed (hexOr k) (parseInts ts)] }
+    opStep st (st.op.keyed (hexOr k) (parseInts ts)) st.msgs
   | ["complete", i] =>
     -- `SourceComplete` of a runner: flushes the batch; the runner's latest watermark keeps counting
-    let r := st.op.complete s!"sr{natOr i}"
-    let c := specComposite st.ids st.msgs
-    ({ st with op := r.1 }, opLine st (toldKf st.msgs) s!"c={r.1.reg.wm} {showReqs r.2}" s!"c={c} {showReqs (retold c r.2)}")
+    opStep st (st.op.complete s!"sr{natOr i}") st.msgs
   | ["redeploy"] =>
-    -- `HandleDeploy` again on the same operator (fresh storage): new registry, no runner has reported
-    ({ st with op := st.op.redeploy (Store.new [] st.kgc 0 st.kgc st.cache) st.ids, msgs := [] }, "ok")
+    -- `HandleDeploy` again on the same operator (fresh storage): new registry, no runner has reported. What was still
+    -- batched belongs to the abandoned deployment: the specification drops it, the code keeps it (D45)
+    let op := st.op.redeploy (Store.new [] st.kgc 0 st.kgc st.cache) st.ids
+    ({ st with op := op, msgs := [], sspec := Spec.new st.ids, squeue := [], stale := op.batch.length, tainted := false,
+               aligned := [] }, "ok")
   | ["barrier"] =>
     -- barriers of all runners: the batch is flushed, then the DB is checkpointed
-    let r := st.op.barrier
-    let c := specComposite st.ids st.msgs
-    ({ st with op := r.1, ckptDb := some r.1.reg.store.db },
-      opLine st (toldKf st.msgs) s!"c={r.1.reg.wm} {showReqs r.2}" s!"c={c} {showReqs (retold c r.2)}")
+    let r := opStep st st.op.barrier st.msgs
+    ({ r.1 with ckptDb := some r.1.op.reg.store.db, sckpt := some r.1.sspec.pending, ckptTainted := r.1.tainted, aligned := [] }, r.2)
+  | ["bar", i] =>
+    -- the barrier of one runner; the last one of an alignment flushes and checkpoints
+    let al := if st.aligned.contains (natOr i) then st.aligned else natOr i :: st.aligned
+    if al.length ≥ st.ids.length then
+      let r := opStep st st.op.barrier st.msgs
+      ({ r.1 with ckptDb := some r.1.op.reg.store.db, sckpt := some r.1.sspec.pending, ckptTainted := r.1.tainted, aligned := [] }, r.2)
+    else
+      let r := opStep st (st.op, []) st.msgs
+      ({ r.1 with aligned := al }, r.2)
   | ["recover"] =>
     -- `HandleDeploy` again with the last checkpoint: fresh caches and registry over the checkpointed DB content
     match st.ckptDb with
     | none => (st, "nockpt")
-    | some db => ({ st with op := st.op.redeploy (Store.new db st.kgc 0 st.kgc st.cache) st.ids, msgs := [] }, "ok")
+    | some db =>
+      let op := st.op.redeploy (Store.new db st.kgc 0 st.kgc st.cache) st.ids
+      ({ st with op := op, msgs := [], sspec := { Spec.new st.ids with pending := st.sckpt.getD [] }, squeue := [],
+                 stale := op.batch.length, tainted := st.ckptTainted, aligned := [] }, "ok")
   | ["wm", i, t] =>
-    let r := st.op.watermark s!"sr{natOr i}" (intOr t)
-    let msgs := st.msgs ++ [(s!"sr{natOr i}", intOr t)]
-    let c := specComposite st.ids msgs
-    ({ st with op := r.1, msgs := msgs }, opLine st (toldKf msgs) s!"c={r.1.reg.wm} {showReqs r.2}" s!"c={c} {showReqs (retold c r.2)}")
+    let sp := st.sspec.advance s!"sr{natOr i}" (intOr t)
+    let fired := sp.2.foldr insertFired []
+    let st := { st with sspec := sp.1, squeue := st.squeue ++ fired.map fun p => HEv.expired p.1 p.2 }
+    opStep st (st.op.watermark s!"sr{natOr i}" (intOr t)) (st.msgs ++ [(s!"sr{natOr i}", intOr t)])
   | _ => (st, "bad-op")
 
 def step (st : St) : List String → St × String
